@@ -264,6 +264,22 @@ def _ev_params(E, f, n, env):
         if a.hi_open and hi == a.hi:
             hi -= 1
         return I.Iv(math.floor(a.lo), hi, False, False, a.exact)
+    if n.k == "CallExpr" and n.callee in ("round", "lround", "nearbyint", "rint", "ceil", "trunc"):
+        a = _ev_params(E, f, X.callee_args(n)[0], env)
+        if a is None:
+            return None
+        if n.callee == "ceil":
+            lo = math.ceil(a.lo)
+            if a.lo_open and lo == a.lo:
+                lo += 1
+            return I.Iv(lo, math.ceil(a.hi), False, False, a.exact)
+        if n.callee == "trunc":
+            return I.Iv(math.trunc(a.lo), math.trunc(a.hi) - (1 if a.hi_open and math.trunc(a.hi) == a.hi and a.hi > 0 else 0), False, False, a.exact)
+        # round to nearest: x in [lo, hi) reaches floor(hi + 0.5) unless hi + 0.5 is an integer that the open end excludes
+        hi = math.floor(a.hi + 0.5)
+        if a.hi_open and hi == a.hi + 0.5:
+            hi -= 1
+        return I.Iv(math.floor(a.lo + 0.5), hi, False, False, a.exact)
     if n.k in ("CStyleCastExpr", "ImplicitCastExpr", "ParenExpr"):
         return _ev_params(E, f, n.children[0], env)
     return E.ev(n, f)
